@@ -759,7 +759,8 @@ func (d *Decoder) decodeStructToMap(v reflect.Value) error {
 			var kv reflect.Value
 			switch t.Key().Kind() {
 			case reflect.String:
-				kv = reflect.ValueOf(fieldNameText)
+				// the key type may be a named string type: reflect.ValueOf(string) is not assignable to it
+				kv = reflect.ValueOf(fieldNameText).Convert(t.Key())
 			default:
 				panic(fmt.Sprintf("the key for map to hold field name must be of type string. Found: %v", t.Key().Kind().String()))
 			}
